@@ -4,7 +4,7 @@ From Coq Require Import String List NArith ZArith Bool.
 From J5V.lib Require Import Outcome Json JsonPrint Base64 Civil.
 From J5V.model Require Import CodecTypes CodecEnc CodecEncSpec.
 From J5V.gen Require ReadmeGen EncSwitchGen.
-From J5V.proofs Require Import CodecEncProofs CodecEncLex CodecEncEmbed.
+From J5V.proofs Require Import CodecEncProofs CodecEncLex CodecEncEmbed CodecEncPresence.
 Import ListNotations.
 Local Open Scope N_scope.
 
@@ -204,6 +204,18 @@ Theorem C08_any_type_value : forall f env pb v j, wire_value f env (FAny pb) v j
                (forall s, pb = false -> msg_get 3 m = Some (VBytes s) -> strict_parse s = Some jv).
 Proof. exact spec_any_framing. Qed.
 Print Assumptions C08_any_type_value.
+(* "unset members are omitted": what set means, independently of the encoder's walk — the proto path
+   leads through populated message fields to a populated field; an exposed oneof is set when exactly
+   one of its members is *)
+Theorem C08_presence_is_has_along_the_path : forall path m v, present path m = Some v <-> reaches path m v.
+Proof. exact present_reaches. Qed.
+Print Assumptions C08_presence_is_has_along_the_path.
+Theorem C08_exposed_oneof_presence : forall env p r qs m,
+  p_path p = [] -> p_ty p = FOneof r -> lookup env r = Some (SOneof qs) ->
+  (prop_present env p m = Some (VMsg m) <-> exists q v, members_present qs m = [(q, v)]) /\
+  (prop_present env p m = None \/ prop_present env p m = Some (VMsg m)).
+Proof. exact exposed_present. Qed.
+Print Assumptions C08_exposed_oneof_presence.
 Theorem C08_names_are_json_names : forall f env ps m ms, wire_members f env ps m ms ->
   map fst ms = map p_json (filter (fun p => match prop_present env p m with Some _ => true | None => false end) ps).
 Proof. exact spec_members_names. Qed.
